@@ -15,6 +15,19 @@ theorem permNib_inv : ∀ π ∈ RP.Gen.permExhaust, ∃ σ ∈ RP.Gen.permExhau
 
 theorem eq_of_nib {x y : Nat} (h1 : x % 16 = y % 16) (h2 : x / 16 = y / 16) : x = y := by omega
 
+theorem or_mod16 (a b : Nat) : (a ||| b) % 16 = a % 16 ||| b % 16 := by
+  have h16 : (16 : Nat) = 2^4 := by decide
+  rw [h16, Nat.or_mod_two_pow]
+theorem or_div16 (a b : Nat) : (a ||| b) / 16 = a / 16 ||| b / 16 := by
+  have h16 : (16 : Nat) = 2^4 := by decide
+  rw [h16, Nat.or_div_two_pow]
+theorem and_mod16 (a b : Nat) : (a &&& b) % 16 = a % 16 &&& b % 16 := by
+  have h16 : (16 : Nat) = 2^4 := by decide
+  rw [h16, Nat.and_mod_two_pow]
+theorem and_div16 (a b : Nat) : (a &&& b) / 16 = a / 16 &&& b / 16 := by
+  have h16 : (16 : Nat) = 2^4 := by decide
+  rw [h16, Nat.and_div_two_pow]
+
 theorem relabelW_or (π : List Nat) (hπ : π ∈ RP.Gen.permExhaust) : ∀ w a b,
     relabelW w π (a ||| b) = relabelW w π a ||| relabelW w π b := by
   intro w
@@ -22,13 +35,10 @@ theorem relabelW_or (π : List Nat) (hπ : π ∈ RP.Gen.permExhaust) : ∀ w a 
   | zero => intro a b; simp [relabelW]
   | succ w ih =>
     intro a b
-    have h16 : (16 : Nat) = 2^4 := by decide
-    have e1 : (a ||| b) % 16 = a % 16 ||| b % 16 := by rw [h16, Nat.or_mod_two_pow]
-    have e2 : (a ||| b) / 16 = a / 16 ||| b / 16 := by rw [h16, Nat.or_div_two_pow]
     have f := (permNib_hom π hπ (a % 16) (Nat.mod_lt _ (by decide)) (b % 16) (Nat.mod_lt _ (by decide))).1
     apply eq_of_nib
-    · rw [relabelW_mod w π hπ, h16, Nat.or_mod_two_pow, ← h16, relabelW_mod w π hπ, relabelW_mod w π hπ, e1, f]
-    · rw [relabelW_div w π hπ, h16, Nat.or_div_two_pow, ← h16, relabelW_div w π hπ, relabelW_div w π hπ, e2, ih]
+    · rw [or_mod16 (relabelW (w+1) π a), relabelW_mod w π hπ, relabelW_mod w π hπ, relabelW_mod w π hπ, or_mod16, f]
+    · rw [or_div16 (relabelW (w+1) π a), relabelW_div w π hπ, relabelW_div w π hπ, relabelW_div w π hπ, or_div16, ih]
 
 theorem relabelW_and (π : List Nat) (hπ : π ∈ RP.Gen.permExhaust) : ∀ w a b,
     relabelW w π (a &&& b) = relabelW w π a &&& relabelW w π b := by
@@ -37,13 +47,10 @@ theorem relabelW_and (π : List Nat) (hπ : π ∈ RP.Gen.permExhaust) : ∀ w a
   | zero => intro a b; simp [relabelW]
   | succ w ih =>
     intro a b
-    have h16 : (16 : Nat) = 2^4 := by decide
-    have e1 : (a &&& b) % 16 = a % 16 &&& b % 16 := by rw [h16, Nat.and_mod_two_pow]
-    have e2 : (a &&& b) / 16 = a / 16 &&& b / 16 := by rw [h16, Nat.and_div_two_pow]
     have f := (permNib_hom π hπ (a % 16) (Nat.mod_lt _ (by decide)) (b % 16) (Nat.mod_lt _ (by decide))).2
     apply eq_of_nib
-    · rw [relabelW_mod w π hπ, h16, Nat.and_mod_two_pow, ← h16, relabelW_mod w π hπ, relabelW_mod w π hπ, e1, f]
-    · rw [relabelW_div w π hπ, h16, Nat.and_div_two_pow, ← h16, relabelW_div w π hπ, relabelW_div w π hπ, e2, ih]
+    · rw [and_mod16 (relabelW (w+1) π a), relabelW_mod w π hπ, relabelW_mod w π hπ, relabelW_mod w π hπ, and_mod16, f]
+    · rw [and_div16 (relabelW (w+1) π a), relabelW_div w π hπ, relabelW_div w π hπ, relabelW_div w π hπ, and_div16, ih]
 
 theorem relabel_or (π : List Nat) (hπ : π ∈ RP.Gen.permExhaust) (a b : Nat) :
     relabel π (a ||| b) = relabel π a ||| relabel π b := relabelW_or π hπ 13 a b
